@@ -514,3 +514,79 @@ Proof.
     apply pos_val_nonneg. apply Forall_app. auto. }
   destruct (float_of_decimal_sound _ _ _ _ M0 H) as [x [-> FD]]. exists neg, mant, k, x. auto.
 Qed.
+
+(* ---------- toFloat: every decimal floating-point numeral is read as such; an error means that the text
+   is no such numeral (or is one of the texts outside the model), or that its value is 2^1024 or more ---------- *)
+
+Lemma sign_text_split_any : forall sg neg rest, sign_text sg neg ->
+  match rest with c :: _ => c <> 45%N /\ c <> 43%N | [] => True end ->
+  split_sign (sg ++ rest) = (neg, rest).
+Proof.
+  intros sg neg rest [[-> ->]|[[-> ->]|[-> ->]]] R; cbn [app]; try reflexivity.
+  destruct rest as [|c r]; [reflexivity|]. destruct R as [R1 R2]. cbn [split_sign].
+  destruct (N.eqb_spec c 45); [contradiction|]. destruct (N.eqb_spec c 43); [contradiction|]. reflexivity.
+Qed.
+
+Lemma digit_not_sign : forall c, is_digit c = true -> c <> 45%N /\ c <> 43%N.
+Proof. intros c D. unfold is_digit in D. lia. Qed.
+
+Lemma parse_float_syntax_complete : forall s neg mant k, float_numeral s neg mant k ->
+  parse_float_syntax s = Some (neg, mant, k).
+Proof.
+  intros s neg mant k [sg [ip [ft [fp [et [e10 [-> [T [AI [AF [FT [NE [ET [-> ->]]]]]]]]]]]]]].
+  unfold parse_float_syntax.
+  (* the first character behind the exponent marker / of the exponent part is no digit *)
+  assert (ETnd : match et with c :: _ => is_digit c = false /\ (c =? 46)%N = false | [] => True end).
+  { destruct ET as [[-> _]|[c [sg2 [ed [eneg [Hc [-> _]]]]]]]; [exact I|]. destruct Hc as [-> | ->]; split; reflexivity. }
+  assert (R1 : match ip ++ ft ++ et with c :: _ => c <> 45%N /\ c <> 43%N | [] => True end).
+  { destruct ip as [|c ip']; [|inversion AI; subst; apply digit_not_sign; assumption].
+    cbn [app]. destruct FT as [[-> ->] | ->]; [cbn in NE; congruence|]. cbn [app]. split; discriminate. }
+  rewrite (sign_text_split_any _ _ _ T R1).
+  assert (R2 : match ft ++ et with c :: _ => is_digit c = false | [] => True end).
+  { destruct FT as [[-> _] | ->]; cbn [app]; [|reflexivity]. destruct et; [exact I|apply ETnd]. }
+  rewrite (take_digits_app _ _ AI R2).
+  assert (R3 : match et with c :: _ => is_digit c = false | [] => True end) by (destruct et; [exact I|apply ETnd]).
+  match goal with |- (let '(_, _) := ?X in _) = _ => set (FR := X) end.
+  assert (EFR : FR = (fp, et)).
+  { subst FR. destruct FT as [[-> ->] | ->]; cbn [app].
+    - destruct et as [|c r]; [reflexivity|]. destruct ETnd as [_ E46]. rewrite E46. reflexivity.
+    - rewrite N.eqb_refl. apply take_digits_app; assumption. }
+  rewrite EFR. destruct (ip ++ fp) as [|c0 m0] eqn:EM; [congruence|]. rewrite <- EM.
+  destruct ET as [[-> ->]|[c [sg2 [ed [eneg [Hc [-> [T2 [NEd [AE ->]]]]]]]]]].
+  - rewrite dec_val_pos_val. f_equal.
+  - assert (EC : ((c =? 101)%N || (c =? 69)%N) = true) by (destruct Hc as [-> | ->]; reflexivity). rewrite EC.
+    rewrite (sign_text_split _ _ _ T2 NEd AE).
+    rewrite <- (app_nil_r ed) at 1. rewrite (take_digits_app ed [] AE I).
+    destruct ed as [|d0 ed0] eqn:Eed; [congruence|]. rewrite <- Eed. rewrite !dec_val_pos_val. reflexivity.
+Qed.
+
+(* a text denotes at most one (sign, mantissa, exponent) *)
+Lemma float_numeral_unique : forall s n1 m1 k1 n2 m2 k2,
+  float_numeral s n1 m1 k1 -> float_numeral s n2 m2 k2 -> n1 = n2 /\ m1 = m2 /\ k1 = k2.
+Proof.
+  intros s n1 m1 k1 n2 m2 k2 H1 H2. apply parse_float_syntax_complete in H1, H2. rewrite H1 in H2.
+  inversion H2. auto.
+Qed.
+
+Theorem toFloat_reject : forall s, str_to_float s = Err None ->
+  (forall neg mant k, ~ float_numeral s neg mant k) \/
+  (exists neg mant k, float_numeral s neg mant k /\ 0 <= k /\ two1024 <= mant * 10 ^ k).
+Proof.
+  intros s H. unfold str_to_float in H. destruct (existsb float_special_char s); [discriminate|].
+  destruct (parse_float_syntax s) as [[[neg mant] k]|] eqn:P.
+  - right. exists neg, mant, k. split; [apply parse_float_syntax_sound; exact P|].
+    unfold float_of_decimal in H. destruct (mant =? 0); [destruct neg; discriminate|].
+    destruct (2000 <? Z.abs k); [discriminate|]. destruct (Z.leb_spec 0 k) as [K|K].
+    + split; [exact K|]. destruct (Z.leb_spec two1024 (mant * 10 ^ k)); [assumption|].
+      destruct (mkfl _ 0); discriminate.
+    + destruct (mant mod 5 ^ (- k) =? 0); [|discriminate]. destruct (mkfl _ _); discriminate.
+  - left. intros neg mant k FN. rewrite (parse_float_syntax_complete _ _ _ _ FN) in P. discriminate.
+Qed.
+
+(* and a numeral (written without the characters i n x _, which no numeral contains) is never rejected as
+   malformed: the answer is its value, an error for 2^1024 and more, or outside the model (inexact) *)
+Theorem toFloat_numeral_read : forall s neg mant k, float_numeral s neg mant k ->
+  existsb float_special_char s = false -> str_to_float s = float_of_decimal neg mant k.
+Proof.
+  intros s neg mant k FN E. unfold str_to_float. rewrite E. rewrite (parse_float_syntax_complete _ _ _ _ FN). reflexivity.
+Qed.
